@@ -280,7 +280,16 @@ fn worker(p: &dyn Property, tier: Tier, shard: u64, n: u64) -> ! {
         std::process::exit(3);
     });
     let mut ctx = Ctx::new(tier, shard, n, seed_from_env());
-    p.explore(&mut ctx);
+    // a panic that escapes the exploration (the subject panicking outside the places where the
+    // property's own oracle catches panics, or returning something the harness cannot continue
+    // with) is reported with the case in which it happened
+    if let Err(e) = std::panic::catch_unwind(std::panic::AssertUnwindSafe(|| p.explore(&mut ctx))) {
+        use std::io::Write;
+        let msg = e.downcast_ref::<String>().cloned().or_else(|| e.downcast_ref::<&str>().map(|s| s.to_string())).unwrap_or_default();
+        println!("PANICKED {} {}", CASE_NO.load(Ordering::Relaxed), msg.replace('\n', " "));
+        let _ = std::io::stdout().flush();
+        std::process::exit(4);
+    }
     // self-check of the replay path: the first cases of worker 0 held during the exploration, so
     // re-executing their recorded descriptions alone must hold as well (this exercises the
     // encode -> decode -> execute path that a reported violation relies on, on every run)
@@ -317,7 +326,7 @@ fn replay(p: &dyn Property, path: &str) -> ! {
             std::process::exit(1);
         }
     });
-    if let Some(sh) = case.get("crashed_shard").or(case.get("stalled_shard")) {
+    if let Some(sh) = case.get("crashed_shard").or(case.get("stalled_shard")).or(case.get("panicked_shard")) {
         // re-run the crashed shard in a subprocess
         let tier = case.get("tier").and_then(Value::as_str).unwrap_or("quick").to_string();
         let n = case.get("nshards").and_then(Value::as_u64).unwrap_or(16);
@@ -327,9 +336,9 @@ fn replay(p: &dyn Property, path: &str) -> ! {
             .stderr(Stdio::null())
             .status()
             .unwrap();
-        if st.code().is_none() || st.code() == Some(3) {
+        if st.code().is_none() || st.code() == Some(3) || st.code() == Some(4) {
             println!("VIOLATION property={} replay={path}", p.id());
-            println!("detail: worker shard {sh} died from a signal or stalled again: {st}");
+            println!("detail: worker shard {sh} died from a signal, stalled or panicked again: {st}");
             std::process::exit(1);
         }
         println!("replay: shard {sh} did not crash");
@@ -388,6 +397,7 @@ fn drive(p: &dyn Property, tier: Tier) -> ! {
     }
     let mut crashed: Vec<(u64, String)> = vec![];
     let mut stalled: Vec<u64> = vec![];
+    let mut panicked: Vec<u64> = vec![];
     let mut failed: Vec<String> = vec![];
     for (s, ch) in &mut children {
         loop {
@@ -397,6 +407,8 @@ fn drive(p: &dyn Property, tier: Tier) -> ! {
                         crashed.push((*s, format!("{st}")));
                     } else if st.code() == Some(3) {
                         stalled.push(*s);
+                    } else if st.code() == Some(4) {
+                        panicked.push(*s);
                     } else if !st.success() {
                         failed.push(format!("worker {s} exited with {st}"));
                     }
@@ -423,6 +435,43 @@ fn drive(p: &dyn Property, tier: Tier) -> ! {
     for r in readers {
         let (s, buf) = r.join().unwrap();
         if crashed.iter().any(|c| c.0 == s) {
+            continue;
+        }
+        if panicked.contains(&s) {
+            let line = buf.lines().rev().find_map(|l| l.strip_prefix("PANICKED ")).unwrap_or("0 ").to_string();
+            let (no, msg) = line.split_once(' ').unwrap_or((&line, ""));
+            let case_no: u64 = no.parse().unwrap_or(0);
+            let mut case = json!({"panicked_shard": s, "nshards": nshards, "tier": tier.name(), "case_no": case_no});
+            if case_no > 0 && !stall_viols.iter().any(|v| v.class == "subject-panic") {
+                // a fresh worker names that case; it has to panic at the same case again
+                let o = Command::new(&exe)
+                    .args(["--worker", tier.name(), &s.to_string(), &nshards.to_string()])
+                    .env("VERIF_STOP_AT", case_no.to_string())
+                    .stdin(Stdio::null())
+                    .stderr(Stdio::null())
+                    .output();
+                match o {
+                    Ok(o) if o.status.code() == Some(4) => {
+                        let b = String::from_utf8_lossy(&o.stdout).to_string();
+                        let again = b.lines().rev().find_map(|l| l.strip_prefix("PANICKED ")).and_then(|l| l.split(' ').next()).and_then(|x| x.parse::<u64>().ok());
+                        if again != Some(case_no) {
+                            failed.push(format!("worker {s} panicked in case #{case_no}, then in case #{again:?} when run again"));
+                        }
+                        if let Some(j) = b.lines().find_map(|l| l.strip_prefix("HANGCASE ")) {
+                            if let Ok(v) = serde_json::from_str::<Value>(j) {
+                                case["case"] = v;
+                            }
+                        }
+                    }
+                    Ok(o) => failed.push(format!("worker {s} panicked in case #{case_no} but not when run again ({})", o.status)),
+                    Err(e) => failed.push(format!("cannot re-run worker {s}: {e}")),
+                }
+            }
+            stall_viols.push(Viol {
+                class: "subject-panic".into(),
+                case,
+                detail: format!("a panic escaped in case #{case_no} of worker {s}/{nshards}: {}", msg.chars().take(300).collect::<String>()),
+            });
             continue;
         }
         if stalled.contains(&s) {
@@ -558,8 +607,9 @@ fn drive(p: &dyn Property, tier: Tier) -> ! {
         let mut keep: Vec<&Viol> = vec![];
         for c in classes {
             let cands: Vec<&Viol> = violations.iter().copied().filter(|v| v.class == c).collect();
-            if c == "subject-crash" || c == "subject-hang" {
-                keep.push(cands[0]);
+            if c == "subject-crash" || c == "subject-hang" || c == "subject-panic" {
+                // the one whose case could be named carries the longest description
+                keep.push(cands.iter().copied().max_by_key(|v| v.case.to_string().len()).unwrap());
                 continue;
             }
             let mut found = None;
